@@ -759,7 +759,7 @@ def c05n(F, R):
                     conds.append(c)
             if par.get("k") == "Match" and par.get("src") in (None, "Normal"):
                 for arm in par["arms"]:
-                    if any(y is x for y in walk(arm["body"], pats=False)) or arm["body"] is x:
+                    if arm is x or any(y is x for y in walk(arm["body"], pats=False)) or arm["body"] is x:
                         if any((y.get("res") or "").endswith("::" + AVO) for y in walk(arm["pat"])):
                             variant_ok = True
                         if arm.get("guard") is not None:
